@@ -142,6 +142,18 @@ func (r *c15run) feed(mut string, in []byte) {
 		_ = t.Root()
 		_ = t.Weight()
 		_, _ = t.GetPath(nil)
+		// a re-export from the storage-less trie just decoded: for keys it may or may not cover, in the single and in the
+		// parallel collection mode (it may fail, it must return)
+		var ks [][]byte
+		for i := 0; i < 12; i++ {
+			k := bytes.Repeat([]byte{byte(i * 23)}, 32)
+			if len(in) > i {
+				k[0], k[31] = in[i], in[len(in)-1-i]
+			}
+			ks = append(ks, k)
+		}
+		_, _ = t.GetPath(ks[:1])
+		_, _ = t.GetPath(ks)
 		returned = true
 	case tDeadNodes:
 		// the bytes are planted as the dead-node record of version 1 and decoded by the pruner (its iterator runs in a
